@@ -72,11 +72,18 @@ def roundtrip(r: Run, stream, c, label, spelling=None, full=True, want_print=Tru
             f'decode(encode(circuit)) is a different program ({d})',
             {'stream': stream, 'label': label, 'text': text, 'before': fmt_ops(a),
              'after': fmt_ops(b)})
-    if want_print and all(x[0] in ('G', 'R', 'Z') for x in impl_ops(c)) and \
-            all(op.gate.get_qasm_gate_def() == '' for op in c):
+    if want_print and all(x[0] in ('G', 'R', 'Z', 'M') for x in impl_ops(c)) and \
+            all(op.gate.get_qasm_gate_def() == '' or x[0] == 'M'
+                for op, x in zip(c, impl_ops(c))):
         # the Lean printer model must produce the very same text
-        parts = [str(c.num_qudits)]
+        from bqskit.ir.gates import MeasurementPlaceholder
+        cregs = re.findall(r'^creg (\w+)\[(\d+)\];$', text, re.M)
+        parts = [str(c.num_qudits), ' '.join(f'{a} {b}' for a, b in cregs)]
         for op in c:
+            if isinstance(op.gate, MeasurementPlaceholder):
+                for qd, (nm, idx) in op.gate.measurements.items():
+                    parts.append(f'measure : {qd} {nm} {idx}')
+                continue
             ps = op.params
             if hasattr(op.gate, 'get_full_params'):      # FrozenParameterGate
                 ps = op.gate.get_full_params(op.params)
@@ -90,11 +97,11 @@ def roundtrip(r: Run, stream, c, label, spelling=None, full=True, want_print=Tru
                     ck.violation(
                         'C17-correspondence:printer',
                         'the encoder text differs from the Lean printer model '
-                        '(BqVerif.Qasm.printProgram), or the model text does not lex to '
+                        '(BqVerif.Qasm.printProgramM), or the model text does not lex to '
                         'the token string the round-trip theorem is stated on',
                         {'stream': stream, 'label': label, 'text': text, 'model': out,
                          'broken': 'correspondence qasm printer'}, found_input=False)
-            r.ask('print ' + ' | '.join(parts), cb)
+            r.ask('printm ' + ' | '.join(parts), cb)
     return ok
 
 
@@ -189,6 +196,10 @@ def stream_lib(r: Run, ncirc):
                 c.append_gate(BarrierPlaceholder(k), rng.sample(range(n), k))
             elif x < 0.26 and depth == 2:
                 c.append_gate(Reset(), rng.randrange(n))
+            elif x < 0.30 and depth == 2:
+                q = rng.randrange(n)
+                c.append_gate(MeasurementPlaceholder([('c', n), ('aux', 2)],
+                                                     {q: ('c', rng.randrange(n))}), q)
             else:
                 g = rng.choice([h for h in stable if h.num_qudits <= n])
                 c.append_gate(g, rng.sample(range(n), g.num_qudits),
@@ -232,26 +243,6 @@ def _encodable(c):
 
 
 # =============================================================== prog: subset programs
-def name_known_expr_defect(r: Run, prog, iops):
-    """If the implementation's reading of a generated program is exactly what a reader with
-    one of the two known expression defects computes, return that defect's signature."""
-    if prog is None:
-        return None, None
-    for mode, sig, what in (
-            ('stripped', 'C17-expr-parentheses-dropped',
-             'grouping parentheses are dropped before evaluation (here the difference is a '
-             'floating-point one, e.g. x+(1-1) read as x+1-1)'),
-            ('textual', 'C17-expr-negative-actual-under-power',
-             'a negative actual parameter is spliced as text into the body expression')):
-        try:
-            n, _, ops = gen.Ref(r.builtins, mode).run(prog)
-        except (Bad, SyntaxError, NameError):
-            continue
-        if ops_diff(iops, canon(r.ref_expect(n, ops)), nonfinite_equal=True) is None:
-            return sig, what
-    return None, None
-
-
 def check_program(r: Run, stream, text, ref, use_qiskit, sig=None, what=None,
                   replay_extra=None, prog=None):
     """bqskit's reading of `text` against the reference reading `ref = (n, ops)` (from the
@@ -287,8 +278,6 @@ def check_program(r: Run, stream, text, ref, use_qiskit, sig=None, what=None,
         iops_seq = impl_ops(c)
         iops = canon(iops_seq)
         d = 'num_qudits' if c.num_qudits != n_ref else ops_diff(iops, rops)
-        if d and sig is None and d.split()[0] in ('params', 'block:'):
-            sig, what = name_known_expr_defect(r, prog, iops)
         if d:
             found.append(d)
             kind = d.split()[0]
@@ -460,7 +449,7 @@ def expr_case(r: Run, stream, etext, refval, expect_ok=True, sig=None, what=None
     except Exception:
         pass
 
-    if etext in ('-2^2', '2*(1+2)', 'sqrt(2)/2'):
+    if etext in ('-2^2', '2*(1+2)', 'sqrt(2)/2'):    # representative samples for the evidence
         ck.sample({'stream': stream, 'expression': etext, 'bqskit': ival, 'reference': refval,
                    'qiskit': qval, 'lark_tree': ltree, 'python_text': ptxt}, limit=12)
 
@@ -516,136 +505,86 @@ def stream_expr(r: Run, nrand):
         expr_case(r, 'expr-random', gen.toks_text(gen.e_tokens(t, 1, rng, 0.15), rng), v)
 
 
-# =============================================================== known defects
-def stream_known(r: Run, nrand):
-    """One family per known defect.  The violation is decided by the reference value /
-    reference elaboration / Qiskit; the signature is specific only when the observed
-    behaviour is exactly the known one (otherwise the generic signature applies)."""
+# =============================================================== formerly defective constructs
+def stream_regress(r: Run, nrand):
+    """The constructs the reader used to get wrong (repaired by the fix: commits 086cad2 …
+    6cd2451 in /repo): parenthesised sub-expressions, sqrt/exp, negative actual parameters
+    under `^`, lists of whole registers, reset / measure of a later register, two measurement
+    placeholders in one circuit.  Ordinary cases now: any disagreement is a violation."""
     ck, rng = r.ck, r.rng
-    # K1 parentheses are dropped
-    cases = list(gen.EDGE_PAREN)
+    cases = list(gen.EDGE_PAREN) + list(gen.EDGE_FUN)
     for _ in range(nrand):
         for _ in range(50):
             t = gen.gen_expr(rng, rng.choice([2, 3, 4]), [])
             toks = gen.e_tokens(t, 1, rng, 0.0)
             try:
                 v = gen.e_eval(t, {})
-                s = gen.py_value(gen.toks_python(toks, True), {})
+                s_ = gen.py_value(gen.toks_python(toks, True), {})
             except Bad:
                 continue
-            if gen.finite_ok(v) and gen.finite_ok(s) and not gen.close(v, s):
-                cases.append(gen.toks_text(toks))
+            if gen.finite_ok(v) and gen.finite_ok(s_) and not gen.close(v, s_):
+                cases.append(gen.toks_text(toks))      # needs its parentheses
                 break
     for e in cases:
-        ref = py_ref(e)
-        stripped = None
-        try:
-            stripped = gen.py_value(gen.strip_grouping(e).replace('^', '**'), {})
-        except (Bad, SyntaxError, NameError):
-            pass
-        c, _ = r.impl_decode(HDR + f'qreg q[1];\nrz({e}) q[0];\n')
-        ival = float(c.params[0]) if c is not None else None
-        known = ival is not None and stripped is not None and gen.close(ival, stripped)
-        expr_case(r, 'known-paren', e, ref,
-                  sig='C17-expr-parentheses-dropped' if known else None,
-                  what=f'rz({e}) is read as rz({ival!r}): the parentheses of a '
-                       f'sub-expression are dropped before evaluation; the value is {ref!r}')
-    # K3 sqrt / exp
-    for e in gen.EDGE_FUN:
-        if e.startswith('EXP'):
-            expr_case(r, 'known-fun', e, None)      # not OpenQASM: rejected by everyone
-            continue
-        f = 'sqrt' if 'sqrt' in e else 'exp'
-        expr_case(r, 'known-fun', e, py_ref(e), sig=f'C17-expr-function-unreadable:{f}',
-                  what=f'{f}() is part of OpenQASM 2 expressions but rz({e}) is rejected')
-    # K2 negative actual parameter under '^'
+        expr_case(r, 'regress-expr', e, py_ref(e))
+    expr_case(r, 'regress-expr', 'EXP(1)', None)       # not OpenQASM: rejected by everyone
+    # negative actual parameter under '^'
     for k in range(max(4, nrand // 4)):
-        a = rng.choice([-2.0, -1.5, -0.5, -3.0])
-        ex = rng.choice(['a^2', '2*a^2', 'a^2+1', 'b+a^2', '-a^2', 'a^2^1'])
+        a = rng.choice([-2.0, -1.5, -0.5, -3.0, -1e-05])
+        ex = rng.choice(['a^2', '2*a^2', 'a^2+1', 'b+a^2', '-a^2', 'a^2^1', 'a^b*a', '1/a^3'])
         text = HDR + ('qreg q[2];\ngate g(a,b) x { rz(%s) x; }\ng(%r,0.25) q[1];\n'
                       % (ex, a))
-        refv = gen.py_value(ex.replace('^', '**'), {'a': a, 'b': 0.25})
-        textual = gen.py_value(ex.replace('^', '**'), {'a': a, 'b': 0.25}, textual=True)
+        try:
+            refv = gen.py_value(ex.replace('^', '**'), {'a': a, 'b': 0.25})
+        except Bad:
+            continue
         ref = (2, [('B', 1, (1,), [('G', 'rz', (0,), (refv,))])])
-        c, _ = r.impl_decode(text)
-        known = False
-        if c is not None:
-            try:
-                known = gen.close(float(c.params[0]), textual) and not gen.close(refv, textual)
-            except Exception:
-                pass
-        check_program(r, 'known-negpow', text, ref, True,
-                      sig='C17-expr-negative-actual-under-power' if known else None,
-                      what='a negative actual parameter is spliced as text into the body '
-                      'expression, so `a^2` becomes `-2.0**2`')
-        ck.count(('known-negpow', text))
-    # K4 idlist of >= 2 bare names
+        check_program(r, 'regress-negpow', text, ref, True)
+        ck.count(('regress-negpow', text))
+    # lists of whole registers
     for text, ref in [
         (HDR + 'qreg q[2];\nqreg r[1];\nh q[0];\nbarrier q, r;\nh r[0];\n',
          (3, [('G', 'h', (0,), ()), ('R', (0, 1, 2)), ('G', 'h', (2,), ())])),
         (HDR + 'qreg q[1];\nqreg r[1];\ncx q, r;\n', (2, [('G', 'cx', (0, 1), ())])),
         (HDR + 'qreg q[1];\nqreg r[1];\nqreg w[2];\nbarrier q, r, w[1];\n',
          (4, [('R', (0, 1, 3))])),
+        (HDR + 'qreg q[1];\nqreg r[2];\nqreg w[1];\nbarrier w, r, q;\n',
+         (4, [('R', (3, 1, 2, 0))])),
     ]:
-        c, exc = r.impl_decode(text)
-        check_program(r, 'known-idlist', text, ref, True,
-                      sig='C17-idlist-of-registers-crashes' if exc == 'AttributeError'
-                      else None,
-                      what='a list of two or more whole registers cannot be read')
-        ck.count(('known-idlist', text))
-    # K5 reset of a whole register other than the first
+        check_program(r, 'regress-idlist', text, ref, True)
+        ck.count(('regress-idlist', text))
+    # reset of a whole register other than the first
     for sizes in [(2, 3), (1, 2), (3, 1), (2, 2, 2)]:
         names = ['q', 'r', 'w'][:len(sizes)]
         k = rng.randrange(1, len(sizes))
-        text = HDR + ''.join(f'qreg {n}[{s}];\n' for n, s in zip(names, sizes)) \
+        text = HDR + ''.join(f'qreg {n}[{s_}];\n' for n, s_ in zip(names, sizes)) \
             + f'h {names[k]}[0];\nreset {names[k]};\n'
         off = sum(sizes[:k])
         ref = (sum(sizes), [('G', 'h', (off,), ())] + [('Z', off + i) for i in range(sizes[k])])
-        c, _ = r.impl_decode(text)
-        known = c is not None and sorted(
-            op[1] for op in impl_ops(c) if op[0] == 'Z') == list(range(sizes[0]))
-        check_program(r, 'known-reset', text, ref, True,
-                      sig='C17-reset-register-resets-first-register' if known else None,
-                      what='`reset r;` resets the qubits 0..size(first register)-1 whatever '
-                      'register is named')
-        ck.count(('known-reset', text))
-    # K6 measure r[i] -> c[j] records the raw index
+        check_program(r, 'regress-reset', text, ref, True)
+        ck.count(('regress-reset', text))
+    # measure r[i] -> c[j] on a later register
     for sizes, k, i, j in [((2, 3), 1, 1, 2), ((1, 2), 1, 0, 0), ((2, 2, 2), 2, 1, 0)]:
         names = ['q', 'r', 'w'][:len(sizes)]
-        text = HDR + ''.join(f'qreg {n}[{s}];\n' for n, s in zip(names, sizes)) \
+        text = HDR + ''.join(f'qreg {n}[{s_}];\n' for n, s_ in zip(names, sizes)) \
             + f'creg c[3];\nx {names[k]}[{i}];\nmeasure {names[k]}[{i}] -> c[{j}];\n'
         off = sum(sizes[:k])
         ref = (sum(sizes), [('G', 'x', (off + i,), ()),
                             ('M', (off + i,), ((off + i, 'c', j),))])
-        c, _ = r.impl_decode(text)
-        known = c is not None and any(
-            op[0] == 'M' and op[1] == (off + i,) and op[2] == ((i, 'c', j),)
-            for op in impl_ops(c))
-        check_program(r, 'known-measure', text, ref, True,
-                      sig='C17-measure-key-is-raw-index' if known else None,
-                      what='`measure r[i] -> c[j]` records the register-local index i, not '
-                      'the circuit qubit, in the measurement placeholder')
-        ck.count(('known-measure', text))
-    # K10 two measurement placeholders -> creg declared twice by the encoder
+        check_program(r, 'regress-measure', text, ref, True)
+        ck.count(('regress-measure', text))
+    # circuits with several measurement placeholders: encode -> decode
     from bqskit.ir.circuit import Circuit
     from bqskit.ir.gates import HGate, MeasurementPlaceholder
-    c = Circuit(2)
-    c.append_gate(HGate(), 0)
-    c.append_gate(MeasurementPlaceholder([('c', 2)], {0: ('c', 0)}), 0)
-    c.append_gate(MeasurementPlaceholder([('c', 2)], {1: ('c', 1)}), 1)
-    text = c.to('qasm')
-    c2, exc = r.impl_decode(text)
-    r.correspond('known-creg', text, c2, exc)
-    ck.count(('known-creg', text))
-    if c2 is None and text.count('creg c[2];') == 2:
-        ck.violation('C17-roundtrip-creg-declared-twice',
-                     'a circuit with two measurement operations is encoded with its '
-                     f'classical register declared twice and cannot be read back ({exc})',
-                     {'stream': 'known-creg', 'text': text, 'exception': exc})
-    elif c2 is None or ops_diff(canon(impl_ops(c)), canon(impl_ops(c2))):
-        ck.violation('C17-roundtrip-changes-program:measure',
-                     'measurements do not survive encode/decode',
-                     {'stream': 'known-creg', 'text': text, 'exception': exc})
+    for nq in (2, 3):
+        c = Circuit(nq)
+        c.append_gate(HGate(), 0)
+        regs = [('c', nq), ('d', 1)]
+        for q in range(nq):
+            c.append_gate(MeasurementPlaceholder(regs, {q: ('c', nq - 1 - q)}), q)
+        c.append_gate(HGate(), nq - 1)
+        c.append_gate(MeasurementPlaceholder(regs, {nq - 1: ('d', 0)}), nq - 1)
+        roundtrip(r, 'regress-creg', c, f'measure-{nq}', 'measure')
 
 
 # =============================================================== malformed
@@ -666,6 +605,11 @@ def stream_malformed(r: Run, nrand):
     add('index-out-of-range', 'reject', 'barrier q[2];\n')
     add('index-out-of-range', 'reject', 'reset q[2];\n')
     add('index-out-of-range', 'reject', 'measure q[2] -> c[0];\n')
+    add('clbit-index-out-of-range', 'reject', 'measure q[0] -> c[2];\n')
+    add('clbit-index-out-of-range', 'reject', 'measure q[0] -> c[5];\n')
+    add('clbit-index-out-of-range', 'reject', 'measure r[1] -> c[2];\n')
+    add('clbit-index-out-of-range', 'reject', 'creg d[4];\nmeasure q[1] -> c[3];\n')
+    add('clbit-index-out-of-range', 'reject', 'creg d[1];\nmeasure q[1] -> d[1];\n')
     add('index-beyond-circuit', 'reject', 'h r[2];\n')
     add('index-beyond-circuit', 'reject', 'h r[7];\n')
     add('index-beyond-circuit', 'reject', 'CX q[0],r[5];\n')
@@ -799,7 +743,7 @@ def stream_malformed(r: Run, nrand):
         fam.append(('corrupted', 'any', ''.join(toks)))
     import lark
     from bqskit.ir.lang.qasm2.parser import parse as lark_parse
-    kws = set(gen.KEYWORDS) - {'exp'}
+    kws = set(gen.KEYWORDS)
     for family, cls, text in fam:
         if family == 'corrupted':
             # Lark's contextual lexer reads a keyword as an identifier where only an ID can
@@ -843,7 +787,7 @@ def stream_lex(r: Run, texts):
     """Token streams: Lark's lexer vs the model's (programs without keyword-identifiers)."""
     from bqskit.ir.lang.qasm2.parser import _OPENQASMPARSER as P
     ck = r.ck
-    kws = set(gen.KEYWORDS) - {'exp'}
+    kws = set(gen.KEYWORDS)
     for text in texts:
         try:
             toks = []
@@ -990,7 +934,7 @@ def run_all(r: Run, proved):
     thorough = ck.tier == 'thorough'
     stream_lib(r, 1500 if thorough else 120)
     stream_expr(r, 12000 if thorough else 700)
-    stream_known(r, 200 if thorough else 16)
+    stream_regress(r, 200 if thorough else 16)
     stream_prog(r, 30000 if thorough else 1000)
     stream_malformed(r, 6000 if thorough else 300)
     lex_texts = [unesc(l[7:]) for l in r.requests if l.startswith('decode ')]
